@@ -252,6 +252,15 @@ func (c *Ctx) c01Text() string {
 	if c.rng.Intn(10) == 0 {
 		return pick(c, c01Recursive)
 	}
+	if c.rng.Intn(8) == 0 {
+		// special-element bodies whose static text changes its byte length under case mapping (U+023A, U+023E grow, U+0130, U+212A,
+		// U+1E9E shrink, invalid UTF-8 becomes U+FFFD), followed by markup in which an action is only acceptable at some offsets
+		el := pick(c, []string{"script", "style", "title", "textarea", "SCRIPT", "Title"})
+		ch := pick(c, []string{"\u023a", "\u023e", "\xff", "\u0130", "\u212a", "\u1e9e", "\u017f", "\xc3", "\u00e9", "\xe2\x80"})
+		body := pick(c, []string{"", "var a = 1;", "x</", "<"}) + strings.Repeat(ch, 1+c.rng.Intn(16)) + pick(c, []string{"", "y", "</b>", "<!--"})
+		tail := pick(c, []string{"<a {{.X}}>x</a>", "<{{.X}}>", "<a title={{.X}}>x</a>", "<p>{{.X}}</p>", "<a href=\"{{.X}}\">l</a>", "<b title=\"{{.X}}\">", "{{.X}}", "<a {{.X}}=\"1\">"})
+		return "<" + el + ">" + body + "</" + el + pick(c, []string{"", " ", "\n"}) + ">" + tail
+	}
 	for i, n := 0, 1+c.rng.Intn(4); i < n; i++ {
 		if c.rng.Intn(2) == 0 {
 			b.WriteString(pick(c, c01Special))
@@ -360,7 +369,34 @@ var c02Prefixes = []string{"", "", "", "/", "/p/", "/p?q=", "#", "https://ok.exa
 
 func (c *Ctx) c02Text() (string, string) {
 	q := pick(c, []string{"\"", "\"", "'"})
-	switch c.rng.Intn(17) {
+	switch c.rng.Intn(19) {
+	case 17, 18: // the same static prefix text first in a plain-URL attribute and then at the start of a code-loading URL (or the reverse), in one
+		// template, through a called template, or in a range / if body: what a prefix admits depends on the attribute, not on its text
+		u := pick(c, urlTargets[:10])
+		t := pick(c, codeTargets)
+		rel := ""
+		if strings.ToLower(t[0]) == "link" {
+			rel = " rel=\"" + pick(c, relForLink) + "\""
+		}
+		closing := ""
+		if strings.ToLower(t[0]) == "script" {
+			closing = "</script>"
+		}
+		pre := pick(c, []string{"https://", "//", "http://h/", "?q=", "dir/", "https://ok.example", "HTTPS://", "https:", "/", "x", "mailto:", "https://ok.example/", "/static/", "#", "data:"})
+		first := "<" + u[0] + " " + u[1] + "=" + q + pre + "{{.O}}" + q + ">"
+		second := "<" + t[0] + rel + " " + t[1] + "=" + q + pre + "{{.O}}" + q + ">" + closing
+		if c.rng.Intn(4) == 0 {
+			first, second = second, first
+		}
+		switch c.rng.Intn(4) {
+		case 0:
+			return "{{template \"first\" .}}" + second + "{{define \"first\"}}" + first + "{{end}}", "cross-context-prefix"
+		case 1:
+			return "{{range .P}}" + strings.Replace(first, "{{.O}}", "{{$.O}}", 1) + "{{end}}" + second, "cross-context-prefix"
+		case 2:
+			return "{{if .C}}" + first + "{{end}}" + second, "cross-context-prefix"
+		}
+		return first + second, "cross-context-prefix"
 	case 14: // ambiguous static prefixes: nested branches, and the same prefix seen unambiguously earlier in the set
 		t := pick(c, urlTargets[:10])
 		st := pick(c, []string{"java", "JAVA", "j", "javascript", "javascript:"})
